@@ -98,6 +98,9 @@ func genC15(seed uint64, run int, tier string) *RunSpec {
 	spec.Kernel = randomKernelSeq(r)
 	spec.Kernel.Map.Order = "asc"
 	n := 4 + r.Intn(9)
+	if r.Chance(4) {
+		n = 30 + r.Intn(40) // a long history: a file rendered many times between edits (anything that counts uses)
+	}
 	// Scenario bias (a fifth of the histories start with it): render, make the file unusable under a NEW
 	// modification time (invalid content or deleted), render (fails), put back other content under the FIRST
 	// modification time, render. Each step changes the mtime, so nothing here is an equal-mtime edit; what is
